@@ -154,6 +154,38 @@ def pipeline_results(rules, transforms, ptxns, rows, tmp):
     return res
 
 
+def pipeline_reported_is_classified(rules, ptxns, rows, tmp):
+    """A statement WITHOUT a location column, some descriptions ending in a state / country code: whatever location (and other values) a parsed
+    transaction reports are the values the rules were shown - classifying the reported transaction again gives the classification it carries.
+    Returns a list of (description, reported location, carried, again) for rows where that fails.  (Files without transforms only.)"""
+    import csv
+    from tally.format_parser import parse_format_string
+    from tally.parsers import parse_generic_csv
+    path = os.path.join(tmp, 'stmt-noloc.csv')
+    codes = ['', ' WA', ' HI', ' NY', '  CA', ' wa', ' GB ']
+    with open(path, 'w', newline='', encoding='utf-8') as f:
+        w = csv.writer(f)
+        w.writerow(['Date', 'Description', 'Amount', 'Memo', 'Code'])
+        for i, t in enumerate(ptxns):
+            w.writerow([t['date'].isoformat(), t['description'] + codes[(i + len(ptxns)) % len(codes)], repr(t['amount']), t['field']['memo'], t['field']['code']])
+    spec = parse_format_string('{date:%Y-%m-%d},{description},{amount},{memo},{code}')
+    src = ptxns[0]['source'] if ptxns else 'CSV'
+    try:
+        got = parse_generic_csv(path, spec, rules, source_name=src, transforms=None, data_sources=copy_rows(rows))
+    except Exception as e:
+        raise ImplError('parse_generic_csv', e)
+    bad = []
+    for g in got:
+        d = g['date']
+        again = production_result(rules, None, {'description': g['raw_description'], 'amount': g['amount'], 'date': d.date() if hasattr(d, 'date') else d,
+                                                'field': g.get('field'), 'source': g.get('source'), 'location': g.get('location')}, rows)
+        unknown = (g['category'] == 'Unknown' and g['subcategory'] == 'Unknown')
+        carried = (None if unknown else (g['merchant'], g['category'], g['subcategory']), set(g.get('tags') or []))
+        if carried != (again['triple'], again['tags']):
+            bad.append((g['raw_description'], g.get('location'), carried, (again['triple'], again['tags'])))
+    return len(got), bad
+
+
 def legacy_parser_results(rules, ptxns, tmp, which):
     """The deprecated `type: amex` / `type: boa` statement readers: same rules, their own way of handing the row to the matcher."""
     import csv
